@@ -21,8 +21,8 @@ package store
 import (
 	"context"
 	"database/sql"
-	"fmt"
 	"path"
+	"strings"
 	"time"
 
 	"github.com/goccy/go-json"
@@ -79,7 +79,11 @@ func (s *MySQLReplicateStore) Get(ctx context.Context, key string, withPrefix bo
 	var sqlStr string
 	var sqlArgs []any
 	if withPrefix {
-		sqlStr = fmt.Sprintf("SELECT task_msg_value FROM task_msg WHERE task_msg_key LIKE '%s%%'", taskMsgKey)
+		if key == "" || strings.HasSuffix(key, "/") {
+			taskMsgKey += "/" // path.Join has removed it
+		}
+		sqlStr = "SELECT task_msg_value FROM task_msg WHERE task_msg_key LIKE ?"
+		sqlArgs = append(sqlArgs, likePrefix(taskMsgKey))
 	} else {
 		sqlStr = "SELECT task_msg_value FROM task_msg WHERE task_msg_key = ?"
 		sqlArgs = append(sqlArgs, taskMsgKey)
